@@ -10,6 +10,7 @@ import (
 	"encoding/json"
 	"fmt"
 	"github.com/blevesearch/bleve/v2/index/scorch"
+	"math/rand"
 	"os"
 	"sort"
 	"sync"
@@ -297,6 +298,11 @@ func run(c *core.Ctx) error {
 	close(jobs)
 	wg.Wait()
 	c.Traces(len(behs))
+	// Phase 1b: two writers on the same ids at the same time (each op a single call or a
+	// one-element batch): the final state is judged by trace/JudgeFinal.tla
+	if err := concurrentWriters(c, cfgs); err != nil && firstErr == nil {
+		firstErr = err
+	}
 	// Phase 2, one replay at a time: the persister is held back at the top of its loop until
 	// a few more batches were introduced (or 40 ms passed), so that with unsafe batches it
 	// takes snapshots holding several in-memory segments with deletions - the in-memory merge
@@ -435,4 +441,111 @@ func replay(c *core.Ctx, path string) error {
 		}
 	}
 	return fmt.Errorf("unknown configuration %q", art.Replay.Config)
+}
+
+// concurrentWriters: two goroutines write versions of the same three ids (writer 1 odd
+// versions, writer 2 even ones), through Index / Delete and through one-element batches.
+func concurrentWriters(c *core.Ctx, cfgs []bx.Config) error {
+	ids := []string{"a", "b", "c"}
+	var recs []any
+	var names []string
+	for _, cfg := range cfgs {
+		for round := 0; round < c.Pick(3, 12); round++ {
+			dir := c.TempDir("c01w")
+			idx, err := cfg.New(dir, bleve.NewIndexMapping())
+			if err != nil {
+				return fmt.Errorf("%s: create: %v", cfg.Name, err)
+			}
+			written := [][]any{}
+			lastOp := map[string][2]string{} // id -> last op of writer 1, writer 2
+			var mu sync.Mutex
+			var wg sync.WaitGroup
+			var werr error
+			for w := 1; w <= 2; w++ {
+				wg.Add(1)
+				go func(w int) {
+					defer wg.Done()
+					rng := rand.New(rand.NewSource(c.Seed*100 + int64(round*2+w)))
+					for k := 0; k < 12; k++ {
+						id := ids[rng.Intn(len(ids))]
+						ver := 2*(k+1) - (w % 2) // writer 1: odd, writer 2: even
+						del := rng.Intn(4) == 0
+						var err error
+						switch {
+						case del && rng.Intn(2) == 0:
+							err = idx.Delete(id)
+						case del:
+							b := idx.NewBatch()
+							b.Delete(id)
+							err = idx.Batch(b)
+						case rng.Intn(2) == 0:
+							err = idx.Index(id, bx.DocFor(ver))
+						default:
+							b := idx.NewBatch()
+							if err = b.Index(id, bx.DocFor(ver)); err == nil {
+								err = idx.Batch(b)
+							}
+						}
+						mu.Lock()
+						if err != nil && werr == nil {
+							werr = err
+						}
+						lo := lastOp[id]
+						if del {
+							lo[w-1] = "del"
+						} else {
+							lo[w-1] = "put"
+							written = append(written, []any{id, ver})
+						}
+						lastOp[id] = lo
+						mu.Unlock()
+					}
+				}(w)
+			}
+			wg.Wait()
+			if werr != nil {
+				_ = idx.Close()
+				os.RemoveAll(dir)
+				return fmt.Errorf("%s: concurrent write failed: %v", cfg.Name, werr)
+			}
+			obs, err := bx.Observe(idx, ids, nil)
+			_ = idx.Close()
+			os.RemoveAll(dir)
+			if err != nil {
+				c.Violation("c01/concurrent-writers/observe:"+cfg.Name, fmt.Sprintf("%s: observation after two concurrent writers failed: %v", cfg.Name, err), map[string]any{"config": cfg.Name})
+				continue
+			}
+			live := [][]any{}
+			for id, fs := range obs.Docs {
+				ver := 0
+				fmt.Sscanf(fs["v"], "v%d", &ver)
+				if fmt.Sprint(bx.FieldsFor(ver)) != fmt.Sprint(fs) {
+					ver = 0 // the stored fields are not those of one version
+				}
+				live = append(live, []any{id, ver})
+			}
+			lastdel := []any{}
+			for id, lo := range lastOp {
+				if (lo[0] == "del" || lo[0] == "") && (lo[1] == "del" || lo[1] == "") && (lo[0] == "del" || lo[1] == "del") {
+					lastdel = append(lastdel, id)
+				}
+			}
+			ma := []any{}
+			for _, id := range obs.MatchAll {
+				ma = append(ma, id)
+			}
+			recs = append(recs, map[string]any{"count": int(obs.Count), "matchall": ma, "live": live, "written": written, "lastdel": lastdel})
+			names = append(names, cfg.Name)
+			c.Eval(1)
+		}
+	}
+	bad, err := c.JudgeRecords("JudgeFinal", "JudgeFinal.cfg", recs, 5, core.Timeout(5*time.Minute))
+	if err != nil {
+		return err
+	}
+	for i, inv := range bad {
+		c.Violation("c01/concurrent-writers/"+inv+":"+names[i], fmt.Sprintf("%s violated on %s after two writers wrote the same ids concurrently: %v", inv, names[i], recs[i]), map[string]any{"config": names[i], "record": recs[i]})
+	}
+	c.Extra("concurrent_writer_rounds", len(recs))
+	return nil
 }
